@@ -453,7 +453,9 @@ func (p *Program) verifyFunction(key string) *FuncResult {
 		g.applyGhostSets(true, "", 0, nil, st)
 		g.execBody(st, "true")
 		if fc != nil && g.pointAssertsApplied != len(fc.PointAsserts) {
-			g.unsupported = append(g.unsupported, fmt.Sprintf("contract-stale: %s: %d of %d point assertions found their anchor", key, g.pointAssertsApplied, len(fc.PointAsserts)))
+			// A point assertion whose anchor call no longer exists produces no obligation (reported per obligation
+			// as baseline-obligation-not-generated); the rest of the function's contract is still checked.
+			g.ctx.note(fmt.Sprintf("%d of %d point assertions of %s found their anchor", g.pointAssertsApplied, len(fc.PointAsserts), key))
 		}
 		if fc != nil && g.ghostSetsApplied != len(fc.GhostSets) {
 			// A ghost assignment anchored at a call that is no longer made simply does not happen: the ghost
